@@ -391,9 +391,19 @@ def rule_pairing(repo):
             norm(b[0].body[0]) == f"top._dag.all_constraints.add(({x}, {y}))"
     init = [s for s in f.body if isinstance(s, ast.Assign) and norm(s.targets[0]) == 'top._dag.all_constraints']
     ok = ok and len(init) == 1 and norm(init[0].value) in ('{*U_U}', 'set(U_U)', 'U_U.copy()') and f.body.index(init[0]) < f.body.index(merge[0])
-    (r.ok if ok else r.bad)(m, FN, "all_constraints = explicit ∪ {implicit (x,y) unless (y,x) explicit}",
-                            *([] if ok else ["implicit edges may only be dropped when the reverse pair is an explicit constraint; "
-                                             "explicit constraints must all be kept", f.lineno]))
+    if ok:
+        # the snapshot of the explicit constraints must be taken AFTER the RD(x)/WR(x)-vs-U constraints were expanded into U_U
+        expand = [i for i, s_ in enumerate(f.body) if any(isinstance(c, ast.Call) and norm(c.func) == 'U_U.add' for c in ast.walk(s_))]
+        if expand and f.body.index(init[0]) < max(expand):
+            ok = False
+            r.bad(m, FN, "all_constraints = {*U_U} taken before the RD/WR(x) < U constraints are expanded into U_U",
+                  "explicit RD(x)/WR(x)-vs-U(blk) constraints never reach the schedulers (they are added to U_U after the snapshot) but still "
+                  "suppress the conflicting implicit edge: the pair is left unordered", init[0].lineno)
+            ok = None
+    if ok is not None:
+        (r.ok if ok else r.bad)(m, FN, "all_constraints = explicit ∪ {implicit (x,y) unless (y,x) explicit}",
+                              *([] if ok else ["implicit edges may only be dropped when the reverse pair is an explicit constraint; "
+                                               "explicit constraints must all be kept", f.lineno]))
     co = [s for s in f.body if isinstance(s, ast.Assign) and norm(s.targets[0]) == 'top._dag.constraint_objs']
     (r.ok if co and norm(co[0].value) == 'constraint_objs' else r.bad)(
         m, FN, 'top._dag.constraint_objs = constraint_objs', *([] if co and norm(co[0].value) == 'constraint_objs' else
@@ -1064,8 +1074,19 @@ def rule_index_scope(repo):
     return r
 
 
+def rule_scc_blocks(repo):
+    """cyclic groups are evaluated by generated super-blocks: every block of the group runs in every pass and the pass is repeated
+    until every watched variable is stable (shared with C11: R-C11-template / -watch / -cover)"""
+    import rules.c11 as c11
+    out = []
+    for rl in (c11.rule_template, c11.rule_watch, c11.rule_cover):
+        res = rl(repo)
+        out.extend(res if isinstance(res, list) else [res])
+    return out
+
+
 RULES = [rule_visitor, rule_funcfold, rule_overlap, rule_pairing, rule_netblk, rule_kahn, rule_greenlet, rule_novar_cycle, rule_cache_scope,
-         rule_methods, rule_index_scope]
+         rule_methods, rule_index_scope, rule_scc_blocks]
 
 
 def _m(name, file, old, new, rule=None, count=1):
@@ -1073,6 +1094,7 @@ def _m(name, file, old, new, rule=None, count=1):
 
 
 MUTANTS = [
+    _m('explicit-snapshot-too-early', GENDAG, "    U_U, RD_U, WR_U, U_M         = top.get_all_explicit_constraints()\n", "    U_U, RD_U, WR_U, U_M         = top.get_all_explicit_constraints()\n    top._dag.all_constraints = { *U_U }\n", 'R-C02-pairing'),
     _m('D20-loopvar-resolved-as-global', ASTH, "          if   x in self.locals:  pass\n          elif x in self.globals: n = (False, x)", "          if   x in self.globals: n = (False, x)", 'R-C02-index-scope', count=2),
     _m('check-schedule-render-unprotected', SIMPLE, "    try:\n      dump_dag( top, V_leftovers, E_leftovers )\n    except Exception:\n      pass\n", "    dump_dag( top, V_leftovers, E_leftovers )\n", 'R-kahn'),
     _m('methods-continuation-guarded', GENDAG, "              if (v, -1) not in visited:\n                visited.add( (v, -1) )\n                Q.append( (v, -1) )", "              if v in method_blks and (v, -1) not in visited:\n                visited.add( (v, -1) )\n                Q.append( (v, -1) )", 'R-C02-methods'),
